@@ -416,6 +416,12 @@ func TestVerif_C15_TCPMux(t *testing.T) {
 					}
 					go func() { _ = send(cl, wire) }()
 					if !waitFor(func() bool { return attached(u, cl.remote) }, 20*time.Second) {
+						if timed {
+							// with a first-frame timeout and an expiry of 40..80 ms a descheduled test process cannot tell
+							// "dropped/expired as configured before the poll looked" from "never attached": not judged
+							st.Inconclusive()
+							rt.Skip("timed mode: attachment not observed")
+						}
 						fail("C15/attach/valid-client-not-attached", "%s: valid client %s not attached to ufrag %s", where, cl.remote, u)
 					}
 					if len(handles[u]) == 0 {
@@ -438,6 +444,12 @@ func TestVerif_C15_TCPMux(t *testing.T) {
 						fail("C15/client/first-write", "%s: %v", where, err)
 					}
 					if !waitFor(func() bool { return attached(u, cl.remote) }, 20*time.Second) {
+						if timed {
+							// with a first-frame timeout and an expiry of 40..80 ms a descheduled test process cannot tell
+							// "dropped/expired as configured before the poll looked" from "never attached": not judged
+							st.Inconclusive()
+							rt.Skip("timed mode: attachment not observed")
+						}
 						fail("C15/attach/valid-client-not-attached", "%s: valid client %s not attached to ufrag %s", where, cl.remote, u)
 					}
 					if len(handles[u]) == 0 {
